@@ -108,15 +108,22 @@ func notGroupClass(verb Verb, u *Unit) string {
 }
 
 // TopLevelConnectives reports whether the raw condition has an AND / an OR
-// keyword outside every parenthesis (the generated strings carry no quoted
-// text containing keywords).
+// keyword outside every parenthesis and outside quoted literals.
 func TopLevelConnectives(sql string) (and, or bool) {
 	isWord := func(c byte) bool {
 		return c == '_' || c == '@' || (c >= '0' && c <= '9') || (c >= 'a' && c <= 'z') || (c >= 'A' && c <= 'Z')
 	}
 	up := strings.ToUpper(sql)
 	depth := 0
+	quoted := false
 	for i := 0; i < len(up); i++ {
+		if up[i] == '\'' {
+			quoted = !quoted
+			continue
+		}
+		if quoted {
+			continue
+		}
 		switch up[i] {
 		case '(':
 			depth++
